@@ -17,11 +17,23 @@ class Inconclusive(Exception):
 
 
 def load_findings():
+    """known_findings.json (committed, never written at run time).  While a check is being developed its
+    entries may live in findings/<id>/known.json; both are merged here."""
     try:
         with open(FINDINGS_FILE) as f:
-            return json.load(f)
+            kf = json.load(f)
     except FileNotFoundError:
-        return {"open": [], "fixed": []}
+        kf = {"open": [], "fixed": []}
+    fdir = os.path.join(VERIF, "findings")
+    if os.path.isdir(fdir):
+        for d in sorted(os.listdir(fdir)):
+            p = os.path.join(fdir, d, "known.json")
+            if os.path.exists(p):
+                with open(p) as f:
+                    extra = json.load(f)
+                kf["open"].extend(extra.get("open", []))
+                kf["fixed"].extend(extra.get("fixed", []))
+    return kf
 
 
 class Ctx:
